@@ -10,7 +10,7 @@
 
     This file contains only statements closed by [exact] and their [Print Assumptions]. *)
 From Coq Require Import List NArith ZArith.
-From ApiFu Require Import Base.Sexp Syn.Ast Syn.ParserModel Syn.Printer Syn.ParserProofs.
+From ApiFu Require Import Base.Sexp Syn.Ast Syn.ParserModel Syn.Printer Syn.ParserProofs Syn.Relabel.
 Import ListNotations.
 
 (** Nothing outside the grammar, nothing truncated, every position exact: an accepted token
@@ -83,6 +83,25 @@ Theorem C06_parse_pos_injective : forall eof_pos eof_errs ts d es,
   NoDup (token_positions ts) -> NoDup (positions_document d).
 Proof. exact parse_pos_injective. Qed.
 
+(** Insensitivity to layout.  The model's only input is the significant-token sequence (ignored
+    tokens never reach the parser: that the real parser agrees is what the correspondence check
+    establishes on every run); positions are only copied: two layouts of one token sequence
+    ([same_shape]: same kinds and texts) are both accepted or both rejected, and the trees are
+    equal once positions are erased. *)
+Theorem C06_parse_layout_insensitive : forall eof1 eof2 ts1 ts2 d1,
+  Forall2 same_shape ts1 ts2 -> NoDup (token_positions ts1) ->
+  scanner_errors [] ts2 = [] ->
+  ParseDocument eof1 [] false ts1 = Out (Some d1) [] ->
+  exists d2, ParseDocument eof2 [] false ts2 = Out (Some d2) [] /\ erase_document d2 = erase_document d1.
+Proof. exact parse_layout_insensitive. Qed.
+
+Theorem C06_parse_layout_same_verdict : forall eof1 eof2 ts1 ts2,
+  Forall2 same_shape ts1 ts2 -> NoDup (token_positions ts1) -> NoDup (token_positions ts2) ->
+  scanner_errors [] ts1 = [] -> scanner_errors [] ts2 = [] ->
+  ((exists d1, ParseDocument eof1 [] false ts1 = Out (Some d1) []) <->
+   (exists d2, ParseDocument eof2 [] false ts2 = Out (Some d2) [])).
+Proof. exact parse_layout_same_verdict. Qed.
+
 (** The recursion counter is back at its entry value after every successful parse. *)
 Theorem C06_recursion_balanced : forall eof_pos eof_errs fuel ts d s',
   parse_document eof_pos eof_errs false fuel (init eof_errs ts) = Ok d s' -> recur s' = 0%Z.
@@ -138,6 +157,8 @@ Print Assumptions C06_parse_document_tree.
 Print Assumptions C06_parse_error_located.
 Print Assumptions C06_parse_reject_has_error.
 Print Assumptions C06_parse_pos_injective.
+Print Assumptions C06_parse_layout_insensitive.
+Print Assumptions C06_parse_layout_same_verdict.
 Print Assumptions C06_recursion_balanced.
 Print Assumptions C06_parse_value_tree.
 Print Assumptions C06_parse_value_roundtrip.
